@@ -223,6 +223,7 @@ func TestVerifC16Reader(t *testing.T) {
 	c16MultiRandom(t, recM)
 	c16SplitExhaustive(t, recS)
 	c16SplitDirected(t, recS)
+	c16SplitManyPieces(t, recS)
 	c16SplitHTTP(t, recS)
 }
 
@@ -528,6 +529,10 @@ func c16NewSplitFx(dir, kind string, hdrLen int, sizes, pieceHdr, pad []int64, s
 		}
 	}
 	scr, err := NewSplitCarReader(meta, func(cf carlet.CarFile) (ReaderAtCloserSize, error) {
+		if c16CreatorDelay != nil {
+			// steer the completion order of the concurrently running creators (schedule only, never a verdict)
+			time.Sleep(c16CreatorDelay(cf.Name))
+		}
 		switch kind {
 		case "file":
 			return NewFileSplitCarReader(filepath.Join(dir, cf.Name))
@@ -543,6 +548,58 @@ func c16NewSplitFx(dir, kind string, hdrLen int, sizes, pieceHdr, pad []int64, s
 	}
 	fx.scr = scr
 	return fx, nil
+}
+
+// c16CreatorDelay, when set, delays the piece creators so that they complete in a chosen order.
+var c16CreatorDelay func(name string) time.Duration
+
+// c16SplitManyPieces: more pieces than NewSplitCarReader opens concurrently (10), creators completing in
+// reverse order: the pieces must still be served in metadata order.
+func c16SplitManyPieces(t *testing.T, rec *ev.Recorder) {
+	dir, err := os.MkdirTemp(ev.Scratch(), "c16many")
+	if err != nil {
+		t.Fatalf("scratch: %v", err)
+	}
+	defer os.RemoveAll(dir)
+	rng := rand.New(rand.NewSource(ev.Seed()*17 + 9))
+	for _, n := range []int{2, 10, 11, 23} {
+		if rec.Enough() {
+			return
+		}
+		sizes := make([]int64, n)
+		ph := make([]int64, n)
+		pad := make([]int64, n)
+		for i := range sizes {
+			sizes[i] = int64(1 + rng.Intn(9))
+			ph[i] = int64(rng.Intn(3))
+			pad[i] = int64(rng.Intn(3))
+		}
+		kind := []string{"mem", "file"}[n%2]
+		seed := ev.Seed()*53 + int64(n)
+		c16CreatorDelay = func(name string) time.Duration {
+			var i int
+			fmt.Sscanf(name, "piece-%d.car", &i)
+			return time.Duration((n-i)%10) * 3 * time.Millisecond
+		}
+		fx, err := c16NewSplitFx(dir, kind, 59, sizes, ph, pad, seed, nil)
+		c16CreatorDelay = nil
+		if err != nil {
+			rec.Eval(1)
+			rec.Violation("NewSplitCarReader/rejects-consistent-pieces", fmt.Sprintf("kind=%s sizes=%v: %v", kind, sizes, err),
+				c16ReadCase{Part: "split", Kind: kind, Sizes: sizes, Seed: seed, HdrLen: 59, PieceHdr: ph, Pad: pad})
+			continue
+		}
+		total := int64(len(fx.ref))
+		buf := make([]byte, total+8)
+		for _, ol := range [][2]int64{{0, total}, {0, total + 3}, {fx.first - 1, 12}, {fx.first, total}, {total - 5, 5}, {total - 5, 6}} {
+			c := c16ReadCase{Part: "split", Kind: kind, Sizes: sizes, Seed: seed, Off: ol[0], Len: int(ol[1]), HdrLen: 59, PieceHdr: ph, Pad: pad}
+			c16CheckRead(rec, "SplitCarReader.ReadAt", fx.scr, fx.ref, c, buf)
+			rec.Count("reads_crossing_boundary", 1)
+		}
+		fx.scr.Close()
+		rec.Distinct(fmt.Sprintf("%s:h59:reverse-completion:%v", kind, sizes))
+		rec.Count("many_piece_vectors", 1)
+	}
 }
 
 func c16SplitCrosses(first int64, sizes []int64, off int64, l int) bool {
